@@ -88,7 +88,7 @@ pub enum SD {
 }
 
 macro_rules! explorer {
-    ($modname:ident, $A:ty, $B:ty, $Src:ty, $to_src:expr, $is_boundary:expr, $bytes:expr) => {
+    ($modname:ident, $A:ty, $B:ty, $Src:ty, $to_src:expr, $is_boundary:expr, $bytes:expr, $other:expr) => {
         pub mod $modname {
             use super::*;
 
@@ -139,6 +139,26 @@ macro_rules! explorer {
                     match self {
                         Node::A(l) => Node::B(l.morph()),
                         Node::B(l) => Node::A(l.morph()),
+                    }
+                }
+                /// `Clone::clone_from` into a lexer that lives over ANOTHER source, in the other mode,
+                /// and has already advanced: afterwards it must be indistinguishable from `clone()`
+                fn clone_from_other(&self, other: &'s $Src, other_partial: bool) -> Node<'s> {
+                    match self {
+                        Node::A(l) => {
+                            let mut t: Lexer<'s, $A> = if other_partial { Lexer::new_partial(other) } else { Lexer::new(other) };
+                            t.next();
+                            t.extras = 77;
+                            t.clone_from(l);
+                            Node::A(t)
+                        }
+                        Node::B(l) => {
+                            let mut t: Lexer<'s, $B> = if other_partial { Lexer::new_partial(other) } else { Lexer::new(other) };
+                            t.next();
+                            t.extras = 77;
+                            t.clone_from(l);
+                            Node::B(t)
+                        }
                     }
                 }
                 fn slice_ok(&self, src: &'s $Src) -> bool {
@@ -280,6 +300,16 @@ macro_rules! explorer {
                                 if got != before || after != before {
                                     complain(rep, "CLONE", &hist, format!("clone continues with {got:?}, original {before:?} (after driving the clone: {after:?})"));
                                 }
+                                let other: &'static $Src = $other;
+                                let mut cf = node.clone_from_other(other, !partial);
+                                if cf.span() != (s, e) || cf.extras() != node.extras() || !cf.slice_ok(src) {
+                                    complain(rep, "CLONE", &hist, format!("clone_from into a lexer over another source gives span {:?} / extras {} (original {:?} / {}) or slice()/remainder() that are not the original's", cf.span(), cf.extras(), (s, e), node.extras()));
+                                } else {
+                                    let got2 = cf.drain(len + 3);
+                                    if got2 != before {
+                                        complain(rep, "CLONE", &hist, format!("after clone_from the lexer continues with {got2:?}, the original with {before:?}"));
+                                    }
+                                }
                             }
                             // ---- morph: position, mode and extras preserved; there and back is the identity
                             {
@@ -343,9 +373,9 @@ fn bin_boundary(s: &[u8], i: usize) -> bool {
     i <= s.len()
 }
 
-explorer!(strs, SA, SB, str, to_str, str_boundary, str_bytes);
-explorer!(bins, BA, BB, [u8], ident, bin_boundary, ident);
-explorer!(looks, SC, SD, str, to_str, str_boundary, str_bytes);
+explorer!(strs, SA, SB, str, to_str, str_boundary, str_bytes, "zz 9 é and a longer tail");
+explorer!(bins, BA, BB, [u8], ident, bin_boundary, ident, b"zz 9 \xff and a longer tail");
+explorer!(looks, SC, SD, str, to_str, str_boundary, str_bytes, "let end\nzz and a longer tail");
 
 pub fn run(tier: &str, rep: &mut Report) {
     std::panic::set_hook(Box::new(|_| {}));
